@@ -208,6 +208,14 @@ def wellformed_filter(rng, events, shape=None, allow_limit=False):
                 # the zero bounds: {"until": 0} matches nothing, {"since": 0} restricts nothing
                 # ({"since": 0} on its own is the unrestricted filter: only C02 generates that, by name)
                 f[rng.choice(["until", "until", "since"]) if len(parts) > 1 else "until"] = 0
+            elif rng.random() < 0.08:
+                # bounds far from the data AND from the wall clock (which stands near T0): an `until` hours / years
+                # ahead of now, a `since` decades back; they restrict nothing that is stored, and mean what they say
+                far = rng.choice(["until", "until", "since", "both"])
+                if far in ("until", "both"):
+                    f["until"] = T0 + rng.choice([3700, 7200, 10 ** 5, 10 ** 8])
+                if far in ("since", "both"):
+                    f["since"] = rng.choice([1, 10 ** 6, T0 - 10 ** 8])
             elif c < 0.4:
                 f["since"] = base + rng.choice([-1, 0, 1, -10])
             elif c < 0.7:
